@@ -1093,7 +1093,7 @@ DIRECTED_FORCE = {"bootimgrt_add_image": {"dek": "empty"}, "mbi_ctor": {"hmac": 
 def cases(tier, seed):  # noqa: ARG001
     for i, kinds in enumerate(DIRECTED):
         yield {"kind": "directed", "k": i, "kinds": kinds, "force": DIRECTED_FORCE}
-    n_hist = 600 if tier == "thorough" else 38
+    n_hist = 600 if tier == "thorough" else 80
     for k in range(n_hist):
         yield {"kind": "history", "k": k, "n": 2 + (k * 7 + 3) % 11}
     n_groups = 100 if tier == "thorough" else 4
